@@ -297,6 +297,24 @@ def classify_open_hull(ps):
         return "other", f"(classification failed: {type(e).__name__})"
 
 
+def overlapping_qhull_triangulation(ps):
+    """Label for the signature of a containment failure (not part of the oracle): does qhull's own triangulated
+    output, with the options trimesh passes by default ('QbB Pp Qt'), cover more area than the hull has? 'QbB' rescales
+    the input to the unit box; for facets with many coplanar / collinear points (lattice shells) that are only
+    approximately coplanar after the rescaling, the 'Qt' fan triangulation of the merged facet can contain an inverted
+    triangle lying on top of its neighbours. The reference area is qhull's area of the same hull without 'QbB'."""
+    try:
+        from scipy.spatial import ConvexHull
+
+        q = ConvexHull(ps.P, qhull_options="QbB Pp Qt")
+        tri = q.points[q.simplices]
+        total = 0.5 * float(np.linalg.norm(np.cross(tri[:, 1] - tri[:, 0], tri[:, 2] - tri[:, 0]), axis=1).sum())
+        ref = float(ConvexHull(ps.P, qhull_options="Qt").area)
+        return total > ref * (1 + 1e-9), f"qhull 'QbB Pp Qt' triangles cover {total:.6f}, the hull surface is {ref:.6f}"
+    except Exception as e:  # noqa
+        return False, f"(classification failed: {type(e).__name__})"
+
+
 def hull_clauses(ps, hull, src, sigbase="C16.hull"):
     P = ps.P
     chk(isinstance(hull, trimesh.Trimesh) and len(hull.faces) >= 4, f"{sigbase}|is_mesh|{src}", lambda: f"{hull}")
@@ -332,11 +350,11 @@ def hull_clauses(ps, hull, src, sigbase="C16.hull"):
     D = np.einsum("fnk,fk->fn", P[None, :, :] - tri[ok][:, 0][:, None, :], nrm)
     excess = D - tol_f[ok][:, None]
     worst = np.unravel_index(int(np.argmax(excess)), excess.shape)
-    chk(
-        excess[worst] <= 0,
-        f"{sigbase}|contains_input|{src}",
-        lambda: f"input point {P[worst[1]].tolist()} is {D[worst]:.3e} outside face {F[ok][worst[0]].tolist()} (tol {tol_f[ok][worst[0]]:.3e}, diam {ps.diam:.3e})",
-    )
+    if not excess[worst] <= 0:
+        over, txt = overlapping_qhull_triangulation(ps)
+        # one root cause, one prefix, whichever sub-check met it
+        sig = f"C16.hull|overlapping_qhull_triangulation|{sigbase}|contains_input|{src}" if over else f"{sigbase}|contains_input|{src}"
+        chk(False, sig, f"input point {P[worst[1]].tolist()} is {D[worst]:.3e} outside face {F[ok][worst[0]].tolist()} (tol {tol_f[ok][worst[0]]:.3e}, diam {ps.diam:.3e}); {txt}")
     well = int((amp <= 1e3).sum())
     # the library's own predicate must agree. Class for the signature: does the hull carry sliver faces
     # (smallest height below 1e-6 of the diameter) whose normals are decided by round-off?
